@@ -50,7 +50,7 @@ func main() {
 	tags := fs.String("tags", "", "build tags")
 	maxDepth := fs.Int("maxdepth", 2000, "max call depth")
 	noFD := fs.Bool("nofd", false, "disable the finite-domain fast path")
-	crossFD := fs.Int("crossfd", 1021, "cross-check every n-th finite-domain verdict against the SMT solver")
+	crossFD := fs.Int("crossfd", 211, "cross-check every n-th finite-domain verdict against the SMT solver")
 	cpuprof := fs.String("cpuprofile", "", "write a CPU profile")
 	stopOnViol := fs.Bool("stoponviolation", false, "stop at the first violation")
 	fs.Parse(os.Args[2:])
